@@ -219,12 +219,36 @@ def check(ctx: Ctx):
         o = count_paths(f.node.body, calls_hit(lambda c: is_self_attr(c.func, "_clear_agent")))
         ok = all(v == (1, 1) for k, v in o.k.items() if k in ("fall", "return")) or (f is hg2 and all(v[1] <= 1 for v in o.k.values()))
         ctx.check(ok, "R-RESET", f"{f.name}: state cleared once before the next cycle", f, f.node, f"{o.k}")
+    # ---- the gain announced is the gain arbitrated with ----------------------------------------
+    ctx.rule("R-ANNOUNCE", "the gain a variable sends to its neighbours is the one it later compares with theirs: nothing changes it between the send and the arbitration")
+    from ..facts import stmt_paths as _sp
+    n_ann = 0
+    for (mod_, cn_, fld_) in (("pydcop.algorithms.mgm2", "Mgm2Computation", "_potential_gain"), ("pydcop.algorithms.mgm", "MgmComputation", "_gain")):
+        cls_ = repo.cls(mod_, cn_)
+        arb = {"Mgm2Computation": ("_handle_gain_messages", "_handle_go_message", "_clear_agent", "__init__"), "MgmComputation": ("__init__",)}[cn_]
+        for f_ in cls_.methods.values():
+            if not any(isinstance(c, ast.Call) and is_self_attr(c.func, "_send_gain") for c in ast.walk(f_.node)):
+                continue
+            for p_ in _sp(f_.node.body):
+                i_send = p_.index(lambda st: any(isinstance(c, ast.Call) and is_self_attr(c.func, "_send_gain") for c in walk_no_nested(st)))
+                if i_send < 0:
+                    continue
+                n_ann += 1
+                late = [st for st in p_.stmts[i_send + 1:] if any(isinstance(n, (ast.Assign, ast.AugAssign)) and any(is_self_attr(t, fld_) for t in (n.targets if isinstance(n, ast.Assign) else [n.target])) for n in walk_no_nested(st))]
+                ctx.check(not late, "R-ANNOUNCE", f"{cn_}.{f_.name}: {fld_} is final when the gain is sent", f_, late[0] if late else p_.stmts[i_send],
+                          f"self.{fld_} is changed after _send_gain() on this path: neighbours arbitrate against the announced (old) gain while this variable decides with the new one - "
+                          "two neighbours can then both believe they hold the best gain and move together")
+        sg = cls_.methods.get("_send_gain")
+        ok_ = sg is not None and any(isinstance(c, ast.Call) and isinstance(c.func, ast.Name) and c.func.id.endswith("GainMessage") and c.args and norm(c.args[0]) == f"self.{fld_}" for c in ast.walk(sg.node))
+        ctx.check(ok_, "R-ANNOUNCE", f"{cn_}._send_gain sends self.{fld_}", sg or cls_, (sg or cls_).node, "")
+    ctx.check(n_ann >= 3, "R-ANNOUNCE", "announcement paths enumerated", repo.cls("pydcop.algorithms.mgm2", "Mgm2Computation"), None, f"{n_ann}")
     ctx.floor("R-EXCLUSIVE", 8)
 
 
 _M = "pydcop/algorithms/mgm.py"
 _M2 = "pydcop/algorithms/mgm2.py"
 VARIANTS = [
+    ("mgm2_gain_sent_before_accept", _M2, "        if msg.accept:\n            self._potential_value = msg.value\n            self._potential_gain = msg.gain", "        self._send_gain()\n        if msg.accept:\n            self._potential_value = msg.value\n            self._potential_gain = msg.gain", "break", "R-ANNOUNCE"),
     ("mgm_move_without_best", _M, "            if is_best:\n", "            if is_best or self._gain != 0:\n", "break", "R-EXCLUSIVE"),
     ("mgm_tie_always_moves", _M, "            if ties[0] == self.name:\n                if self.logger.isEnabledFor(logging.INFO):\n                    self.logger.info(\n                        f\"Won lexic ties", "            if ties[-1] == self.name or ties[0] == self.name:\n                if self.logger.isEnabledFor(logging.INFO):\n                    self.logger.info(\n                        f\"Won lexic ties", "break", "R-EXCLUSIVE"),
     ("mgm_tie_list_without_self", _M, "                    if gain == max_gain\n                ]\n                + [self.name]\n            )\n            if ties[0] == self.name:", "                    if gain == max_gain\n                ]\n            )\n            if not ties or ties[0] > self.name:", "break", "R-EXCLUSIVE"),
